@@ -155,12 +155,23 @@ theorem Fpoly_derivative (n d : ℕ) (hd : d ≤ n) (a s : ℚ) :
 theorem Fpoly_eval_zero (n d : ℕ) (a s : ℚ) : (Fpoly n d a s).eval 0 = 0 := by
   simp [Fpoly, Apoly_eval_zero, Apoly'_eval_zero]
 
+/-- general interval term: slope and `c1` from the grid `xs`, incomplete-beta differences on the grid `xb`
+    (`xs = xb` = clamped grid in `_from_phi_1D_analytic`; `xs` = caller's grid, `xb` = clamped grid in the linalg versions) -/
+def entryG (n d : ℕ) (xs xb φ : ℕ → ℚ) (k : ℕ) : ℚ :=
+  c1 (φ k) (s (φ k) (φ (k+1)) (xs k) (xs (k+1))) (xs k) n
+      * (betaI (d + 1) (n - d + 1) (xb (k+1)) - betaI (d + 1) (n - d + 1) (xb k))
+    + c2 (s (φ k) (φ (k+1)) (xs k) (xs (k+1))) d n
+      * (betaI (d + 2) (n - d + 1) (xb (k+1)) - betaI (d + 2) (n - d + 1) (xb k))
+
+theorem entry1D_eq_entryG (n d : ℕ) (xc φ : ℕ → ℚ) (k : ℕ) : entry1D n d xc φ k = entryG n d xc xc φ k := by
+  simp only [entry1D, entryG, entry, beta1A, beta2A]
+
 /-- one interval of the semi-analytic path is a difference of values of the antiderivative -/
-theorem entry1D_eq (n d : ℕ) (xc φ : ℕ → ℚ) (k : ℕ) :
-    entry1D n d xc φ k
-      = (Fpoly n d (φ k - s (φ k) (φ (k+1)) (xc k) (xc (k+1)) * xc k) (s (φ k) (φ (k+1)) (xc k) (xc (k+1)))).eval (xc (k+1))
-        - (Fpoly n d (φ k - s (φ k) (φ (k+1)) (xc k) (xc (k+1)) * xc k) (s (φ k) (φ (k+1)) (xc k) (xc (k+1)))).eval (xc k) := by
-  simp only [entry1D, entry, c1, c2, beta1A, beta2A, betaI_eq_eval, Fpoly, Apoly, Apoly', eval_add, eval_mul, eval_C]
+theorem entryG_eq (n d : ℕ) (xs xb φ : ℕ → ℚ) (k : ℕ) :
+    entryG n d xs xb φ k
+      = (Fpoly n d (φ k - s (φ k) (φ (k+1)) (xs k) (xs (k+1)) * xs k) (s (φ k) (φ (k+1)) (xs k) (xs (k+1)))).eval (xb (k+1))
+        - (Fpoly n d (φ k - s (φ k) (φ (k+1)) (xs k) (xs (k+1)) * xs k) (s (φ k) (φ (k+1)) (xs k) (xs (k+1)))).eval (xb k) := by
+  simp only [entryG, c1, c2, betaI_eq_eval, Fpoly, Apoly, Apoly', eval_add, eval_mul, eval_C]
   ring
 
 /-- **transfer principle**: a linear relation between sampling probabilities of two sample sizes (as polynomials in the
@@ -187,22 +198,22 @@ theorem transfer (n m : ℕ) (w v : ℕ → ℚ)
 
 theorem transfer_entry (n m : ℕ) (w v : ℕ → ℚ)
     (h : ∑ i ∈ range (n+1), C (w i) * bernsteinPolynomial ℚ n i = ∑ j ∈ range (m+1), C (v j) * bernsteinPolynomial ℚ m j)
-    (xc φ : ℕ → ℚ) (k : ℕ) :
-    ∑ i ∈ range (n+1), w i * entry1D n i xc φ k = ∑ j ∈ range (m+1), v j * entry1D m j xc φ k := by
-  have t := transfer n m w v h (φ k - s (φ k) (φ (k+1)) (xc k) (xc (k+1)) * xc k) (s (φ k) (φ (k+1)) (xc k) (xc (k+1)))
-  have t1 := congrArg (fun P => P.eval (xc (k+1))) t
-  have t0 := congrArg (fun P => P.eval (xc k)) t
+    (xs xb φ : ℕ → ℚ) (k : ℕ) :
+    ∑ i ∈ range (n+1), w i * entryG n i xs xb φ k = ∑ j ∈ range (m+1), v j * entryG m j xs xb φ k := by
+  have t := transfer n m w v h (φ k - s (φ k) (φ (k+1)) (xs k) (xs (k+1)) * xs k) (s (φ k) (φ (k+1)) (xs k) (xs (k+1)))
+  have t1 := congrArg (fun P => P.eval (xb (k+1))) t
+  have t0 := congrArg (fun P => P.eval (xb k)) t
   simp only [eval_finsetSum, eval_mul, eval_C] at t1 t0
-  simp only [entry1D_eq, mul_sub, Finset.sum_sub_distrib]
+  simp only [entryG_eq, mul_sub, Finset.sum_sub_distrib]
   rw [t1, t0]
 
 theorem transfer_fromPhi1D (n m : ℕ) (w v : ℕ → ℚ)
     (h : ∑ i ∈ range (n+1), C (w i) * bernsteinPolynomial ℚ n i = ∑ j ∈ range (m+1), C (v j) * bernsteinPolynomial ℚ m j)
     (N : ℕ) (x φ : ℕ → ℚ) :
     ∑ i ∈ range (n+1), w i * fromPhi1D n N x φ i = ∑ j ∈ range (m+1), v j * fromPhi1D m N x φ j := by
-  simp only [fromPhi1D, sumRange_eq, Finset.mul_sum]
+  simp only [fromPhi1D, sumRange_eq, Finset.mul_sum, entry1D_eq_entryG]
   rw [Finset.sum_comm, Finset.sum_comm (s := range (m+1))]
-  exact Finset.sum_congr rfl fun k _ => transfer_entry n m w v h _ φ k
+  exact Finset.sum_congr rfl fun k _ => transfer_entry n m w v h _ _ φ k
 
 /-! ### hypergeometric weights and the projection identity of Bernstein polynomials -/
 
@@ -259,5 +270,77 @@ theorem bernstein_project (m n j : ℕ) (hm : m ≤ n) (hj : j ≤ m) :
       have : ¬ l < n - m + 1 := fun h => hl (mem_range.mpr h)
       omega
     simp [Nat.choose_eq_zero_of_lt hlt]
+
+/-! ### tables are transparent -/
+
+theorem tabGetF_memoTab (R C : ℕ) (f : ℕ → ℕ → ℚ) : tabGetF (memoTab R C f) R C f = f := by
+  funext i k
+  unfold tabGetF
+  split_ifs with h
+  · simp [memoTab, Array.getD, h.1, h.2]
+  · rfl
+
+theorem fromPhi1DFast_getD (n N : ℕ) (x φ : ℕ → ℚ) (d : ℕ) (hd : d ≤ n) :
+    (fromPhi1DFast n N x φ).getD d 0 = fromPhi1D n N x φ d := by
+  have hlt : d < dCount n := by unfold dCount; omega
+  unfold fromPhi1DFast
+  simp only [tabGetF_memoTab]
+  simp [Array.getD, hlt, fromPhi1D]
+  rfl
+
+/-! ### the stages of the linear-algebra versions are the 1-D formulas -/
+
+theorem dbClamp_eq (x : ℚ) : dbClamp x = clamp x := rfl
+
+theorem linalgLine_eq (a n N : ℕ) (ha : a < 5) (x φ : ℕ → ℚ) (d : ℕ) :
+    linalgLine a n N x (dbeta1 n x) (dbeta2 n x) φ d
+      = ∑ k ∈ range (N - 1), entryG n d x (fun k => clamp (x k)) φ k := by
+  have ha' : a = 0 ∨ a = 1 ∨ a = 2 ∨ a = 3 ∨ a = 4 := by omega
+  have hS : linS a = s := by
+    rcases ha' with rfl | rfl | rfl | rfl | rfl <;> rfl
+  have hC : linC1 a = c1 := by
+    rcases ha' with rfl | rfl | rfl | rfl | rfl <;> rfl
+  have hSc : ∀ sk : ℚ, sk * linScale a d n = c2 sk d n := by
+    intro sk
+    rcases ha' with rfl | rfl | rfl | rfl | rfl <;> simp only [linScale, c2] <;> ring
+  unfold linalgLine
+  rw [sumRange_eq, sumRange_eq, Finset.sum_mul, ← Finset.sum_add_distrib, hS, hC]
+  refine Finset.sum_congr rfl fun k _ => ?_
+  rw [mul_assoc, hSc]
+  simp only [entryG, dbeta1, dbeta2, db1A, db2A, dbDiff, dbClamp_eq]
+  ring
+
+/-! ### mass of one interval -/
+
+theorem bern_sum_poly (n : ℕ) :
+    ∑ i ∈ range (n+1), C (1 : ℚ) * bernsteinPolynomial ℚ n i = ∑ j ∈ range (0+1), C (1 : ℚ) * bernsteinPolynomial ℚ 0 j := by
+  simp only [map_one, one_mul, bernsteinPolynomial.sum]
+
+theorem betaI_one_one (x : ℚ) : betaI 1 1 x = x := by
+  simp [betaI, sumRange, bern, choose, fact]
+
+theorem betaI_two_one (x : ℚ) : betaI 2 1 x = x ^ 2 := by
+  simp [betaI, sumRange, bern, choose, fact]
+
+/-- Σ_d (interval term) = ∫ of the linear piece, whatever the two grids are -/
+theorem entryG_sum (n : ℕ) (xs xb φ : ℕ → ℚ) (k : ℕ) :
+    ∑ d ∈ range (n+1), entryG n d xs xb φ k
+      = (φ k - s (φ k) (φ (k+1)) (xs k) (xs (k+1)) * xs k) * (xb (k+1) - xb k)
+        + s (φ k) (φ (k+1)) (xs k) (xs (k+1)) / 2 * (xb (k+1) ^ 2 - xb k ^ 2) := by
+  have t := transfer_entry n 0 (fun _ => 1) (fun _ => 1) (bern_sum_poly n) xs xb φ k
+  simp only [one_mul, zero_add, Finset.sum_range_one] at t
+  rw [t]
+  simp only [entryG, c1, c2]
+  norm_num
+  simp only [betaI_one_one, betaI_two_one]
+
+/-- … and with one grid of distinct nodes it is the trapezoid -/
+theorem entryG_sum_trapz (n : ℕ) (xc φ : ℕ → ℚ) (k : ℕ) (hk : xc (k+1) ≠ xc k) :
+    ∑ d ∈ range (n+1), entryG n d xc xc φ k = (xc (k+1) - xc k) * (φ (k+1) + φ k) / 2 := by
+  rw [entryG_sum]
+  have h : xc (k+1) - xc k ≠ 0 := sub_ne_zero.mpr hk
+  simp only [s]
+  field_simp
+  ring
 
 end DadiVerif.FromPhi
